@@ -1170,7 +1170,8 @@ def register_batch2(M):
         if k == 'adt' or k == 'tuple':
             iid = find_inst('<%s as std::cmp::PartialEq>::eq' % t['str'])
             if iid is not None:
-                return I.call_fn(iid, [Ptr(Cell(a), 0), Ptr(Cell(b), 0)])
+                r = I.call_fn(iid, [Ptr(Cell(a), 0), Ptr(Cell(b), 0)])
+                return I.ctx.branch(r) if is_sym(r) else r
             return struct_eq(I, t, a, b)
         raise Unsupported('key equality on %s' % t['str'])
     M.val_eq = val_eq
